@@ -47,7 +47,58 @@ func (f *Frame) externalCall(b *ssa.BasicBlock, st *State, fn *ssa.Function, fna
 		f.havocAll(b, st, "external "+fname)
 		return f.freshResult(st, rt, name)
 	}
-	c.note("external library calls (stdlib and third-party listed in models.go) are assumed not to modify Miller's heap; results unconstrained unless modelled: " + pkgOfName(fname))
+	c.note("external library calls (stdlib and third-party listed in models.go) are assumed not to modify Miller's heap except through pointer arguments; results unconstrained unless modelled: " + pkgOfName(fname))
+	// out-parameters: a library function may write through any pointer it is handed
+	// (yaml Decode(&doc), json Unmarshal(&v), binary.Read(&x)); the scanning functions of fmt take
+	// their pointers inside a variadic []any, which is not tracked: everything is havocked there
+	if strings.HasPrefix(fname, "fmt.Sscan") || strings.HasPrefix(fname, "fmt.Fscan") || strings.HasPrefix(fname, "fmt.Scan") {
+		// the scanners write basic values through pointers: every pointer-target component of a
+		// non-struct type is havocked (struct fields, slices and maps are not reachable that way)
+		for _, k := range sortedKeys(c.memSorts) {
+			if strings.HasPrefix(k, "P:") {
+				st.mem[k] = c.declConst("Hs_"+k, tr.memSortFull(k))
+				f.noteWrite(k, b.Index)
+			}
+		}
+		return f.freshResult(st, rt, name)
+	}
+	if fn != nil && fn.Signature != nil {
+		np := fn.Signature.Params().Len()
+		off := 0
+		if fn.Signature.Recv() != nil {
+			off = 1
+		}
+		for i, a := range args {
+			if i < off || np == 0 {
+				continue
+			}
+			pt := fn.Signature.Params().At(min(i-off, np-1)).Type()
+			at := a.typ
+			if at == nil {
+				at = pt
+			}
+			if sl, isSl := at.Underlying().(*types.Slice); isSl {
+				// destination buffers of the io.Reader family
+				if strings.HasSuffix(fname, ".Read") || strings.HasSuffix(fname, ".ReadFull") || strings.HasSuffix(fname, ".ReadAtLeast") || strings.HasSuffix(fname, ".ReadAt") {
+					f.havocElems(b, st, sl.Elem(), a)
+				}
+				continue
+			}
+			ptr, isPtr := at.Underlying().(*types.Pointer)
+			if !isPtr {
+				// a pointer wrapped into an interface parameter (Decode(&doc), Unmarshal(data, &v))
+				if f.extCC != nil && i < len(f.extCC.Args) {
+					if mi, ok := f.extCC.Args[i].(*ssa.MakeInterface); ok {
+						if p2, ok := mi.X.Type().Underlying().(*types.Pointer); ok {
+							f.havocTarget(b, st, f.val(mi.X), p2, 0)
+						}
+					}
+				}
+				continue
+			}
+			f.havocTarget(b, st, a, ptr, 0)
+		}
+	}
 	// elements of slices passed to mutating helpers
 	switch fname {
 	case "sort.Slice", "sort.Sort", "sort.Stable", "sort.SliceStable", "sort.Strings", "sort.Ints", "slices.Sort", "slices.SortFunc", "slices.Reverse":
@@ -103,6 +154,39 @@ func (f *Frame) externalCall(b *ssa.BasicBlock, st *State, fn *ssa.Function, fna
 		}
 	}
 	return f.freshResult(st, rt, name)
+}
+
+// havocTarget: the cell(s) a pointer argument of an external call points to get unconstrained values.
+// Named struct types of other modules are opaque to Miller's code and skipped.
+func (f *Frame) havocTarget(b *ssa.BasicBlock, st *State, p Val, ptr *types.Pointer, depth int) {
+	tr := f.tr
+	target := ptr.Elem()
+	if nt, ok := target.(*types.Named); ok {
+		if _, isStruct := nt.Underlying().(*types.Struct); isStruct {
+			if nt.Obj().Pkg() == nil || !strings.HasPrefix(nt.Obj().Pkg().Path(), modPath) {
+				return
+			}
+		}
+	}
+	a := tr.addrOf(p, ptr)
+	f.havocAddr(b, st, a, depth)
+}
+
+func (f *Frame) havocAddr(b *ssa.BasicBlock, st *State, a *Addr, depth int) {
+	if u, ok := a.typ.Underlying().(*types.Struct); ok {
+		if depth > 3 {
+			return
+		}
+		for i := 0; i < u.NumFields(); i++ {
+			f.havocAddr(b, st, &Addr{key: a.key + "." + u.Field(i).Name(), idxs: a.idxs, typ: u.Field(i).Type()}, depth+1)
+		}
+		return
+	}
+	if _, ok := a.typ.Underlying().(*types.Array); ok {
+		return
+	}
+	v := f.freshResult(st, a.typ, "ext_out")
+	f.store(st, a, v, b.Index)
 }
 
 func pkgOfName(fname string) string {
